@@ -17,7 +17,7 @@ pub fn meta() -> Meta {
     Meta {
         id: "C20",
         level: "exploration",
-        rule: "(1) counting and table: read pairs with an exactly designed multiplicity histogram (for each designed (count c, n k-mers) a unique segment of n+k-1 letters is read c times, copies alternating between the two files and the two orientations) — every design from a family that puts 49/50/51 k-mers on the last bucket, leaves empty buckets inside, and reaches counts 1..12 — plus tilings of a genome with substitution errors and N runs; k in {7,31,33} (thorough: + 15, 21, 63) x both strand modes; the real CoverageHistogram::new + fit_histogram (hook: truncated counts, per-k-mer multiplicities) and the `ska cov` CLI table are compared with the model's multiplicity of every distinct split k-mer. (2) cutoff rule: hooked find_cutoff on the grid w0 in {0.01,0.05..0.95,0.99} x c in {1,1.5,2,3,5,10,20,40,80} x every table length 1..100 against an independent closed form; end to end the printed cutoff equals that function of the fitted parameters and 'Error' labels exactly the counts below it. (3) likelihood/gradient identity on the basis: every unit histogram e_i (i=1..120) x 19 w0 x 12 c: hooked log_likelihood equals the two-Poisson mixture computed independently, hooked grad_ll equals its closed-form derivative (1e-9 relative) and the central difference of the real log_likelihood (1e-5); linearity is checked on composite histograms. Non-trivial = every grid point / designed read set.".into(),
+        rule: "(1) counting and table: read pairs with an exactly designed multiplicity histogram (for each designed (count c, n k-mers) a unique segment of n+k-1 letters is read c times, copies alternating between the two files and the two orientations) — every design from a family that puts 49/50/51 k-mers on the last bucket, leaves empty buckets inside, reaches counts 1..12, and two long tables (a segment seen 250 / 600 times) — plus tilings of a genome with substitution errors and N runs; k in {7,31,33} (thorough: + 15, 21, 63) x both strand modes; the real CoverageHistogram::new + fit_histogram (hook: truncated counts, per-k-mer multiplicities) and the `ska cov` CLI table are compared with the model's multiplicity of every distinct split k-mer. (2) cutoff rule: hooked find_cutoff on the grid w0 in {0.01,0.05..0.95,0.99} x c in {1,1.5,2,3,5,10,20,40,80} x every table length 1..100 (thorough 1..400) against an independent closed form; end to end the printed cutoff equals that function of the fitted parameters and 'Error' labels exactly the counts below it. (3) likelihood/gradient identity on the basis: every unit histogram e_i (i=1..120 plus 150,172,200,244,300,400,600,999; thorough 1..400 plus those) x 19 w0 (thorough 99) x 12 c (thorough 71): hooked log_likelihood equals the two-Poisson mixture computed independently, hooked grad_ll equals its closed-form derivative (1e-9 relative) and the central difference of the real log_likelihood (1e-5); linearity is checked on composite histograms. Non-trivial = every grid point / designed read set.".into(),
         assumptions: vec![
             "likelihood and gradient are linear in the histogram, so the unit histograms form a basis (checked on composites)".into(),
             "grid points within 1e-9 of a tie of the two components accept either neighbouring cutoff".into(),
@@ -134,13 +134,34 @@ struct CovOut {
 }
 
 fn real_cov<I: Int>(p1: &str, p2: &str, k: usize, rc: bool) -> Result<CovOut, String> {
-    real::catch(|| {
-        let mut cov = CoverageHistogram::<I>::new(&p1.to_string(), &p2.to_string(), k, rc, false);
-        let mult: BTreeMap<String, usize> = hooks::kmer_counts(&cov).into_iter().map(|(km, n)| (real::key_of(km, k), n as usize)).collect();
-        let fit = cov.fit_histogram();
-        let (w0, c, cutoff, counts, _) = hooks::fitted_state(&cov);
-        CovOut { fit_ok: fit.is_ok(), w0, c, cutoff, counts, mult }
-    })
+    // in a forked child with a time limit: a fit that never returns must not hang the check
+    let (p1, p2) = (p1.to_string(), p2.to_string());
+    let r = crate::forkrun::in_child(
+        move || {
+            let mut cov = CoverageHistogram::<I>::new(&p1, &p2, k, rc, false);
+            let mult: BTreeMap<String, usize> = hooks::kmer_counts(&cov).into_iter().map(|(km, n)| (real::key_of(km, k), n as usize)).collect();
+            let fit = cov.fit_histogram();
+            let (w0, c, cutoff, counts, _) = hooks::fitted_state(&cov);
+            serde_json::to_vec(&json!({"fit_ok": fit.is_ok(), "w0": w0, "c": c, "cutoff": cutoff, "counts": counts, "mult": mult})).unwrap()
+        },
+        60_000,
+    );
+    match r {
+        crate::forkrun::ChildResult::Ok(b) => {
+            let v: Value = serde_json::from_slice(&b).map_err(|e| format!("{e}"))?;
+            Ok(CovOut {
+                fit_ok: v["fit_ok"].as_bool().unwrap_or(false),
+                w0: v["w0"].as_f64().unwrap_or(f64::NAN),
+                c: v["c"].as_f64().unwrap_or(f64::NAN),
+                cutoff: v["cutoff"].as_u64().unwrap_or(0) as usize,
+                counts: v["counts"].as_array().map(|a| a.iter().map(|x| x.as_u64().unwrap_or(0) as u32).collect()).unwrap_or_default(),
+                mult: v["mult"].as_object().map(|m| m.iter().map(|(k, n)| (k.clone(), n.as_u64().unwrap_or(0) as usize)).collect()).unwrap_or_default(),
+            })
+        }
+        crate::forkrun::ChildResult::Timeout => Err("counting + fit did not return within 60 s (hang)".into()),
+        crate::forkrun::ChildResult::Panic(m) => Err(format!("panicked: {m}")),
+        crate::forkrun::ChildResult::Exit(c) => Err(format!("exited with status {c}")),
+    }
 }
 
 fn check_readset(files: &[Reads; 2], k: usize, rc: bool, with_cli: bool) -> Result<bool, String> {
@@ -223,9 +244,16 @@ pub fn run(ctx: &Ctx, rep: &mut Report) {
     let thorough = ctx.tier.thorough();
     let mut idx = 0u64;
     // ---------- (3) likelihood and gradient on the basis
-    let w0s: Vec<f64> = (1..=19).map(|i| i as f64 * 0.05).collect();
-    let cs: Vec<f64> = vec![1.0, 1.25, 1.5, 2.0, 3.0, 5.0, 8.0, 13.0, 20.0, 40.0, 80.0, 150.0];
-    for i in 1..=120usize {
+    let w0s: Vec<f64> = if thorough { (1..=99).map(|i| i as f64 * 0.01).collect() } else { (1..=19).map(|i| i as f64 * 0.05).collect() };
+    let mut cs: Vec<f64> = vec![1.0, 1.25, 1.5, 2.0, 3.0, 5.0, 8.0, 13.0, 20.0, 40.0, 80.0, 150.0];
+    if thorough {
+        cs.extend((2..=60).map(|i| i as f64 * 1.7));
+    }
+    let mut is: Vec<usize> = (1..=(if thorough { 400usize } else { 120 })).collect();
+    // long tables (over-represented k-mers): sparse set of large counts, all parameter points
+    is.extend([150usize, 172, 200, 244, 300, 400, 600, 999]);
+    is.dedup();
+    for i in is {
         idx += 1;
         if !ctx.mine(idx) {
             continue;
@@ -311,7 +339,7 @@ pub fn run(ctx: &Ctx, rep: &mut Report) {
             if !ctx.mine(idx) {
                 continue;
             }
-            for len in 1..=100usize {
+            for len in 1..=(if thorough { 400usize } else { 100 }) {
                 rep.evaluations += 1;
                 rep.nontrivial += 1;
                 let got = hooks::find_cutoff(&[*w0, c], len);
@@ -338,6 +366,9 @@ pub fn run(ctx: &Ctx, rep: &mut Report) {
                 designs.push(vec![(2, 200), (3, 50), (4, last), (5, 49)]);
             }
             designs.push(vec![(1, 400), (2, 90), (3, 30), (8, 100), (9, 160), (10, 200), (11, 150), (12, 80), (13, 20)]);
+            // a long table: an over-represented segment (adapter, plasmid) seen 250 and 600 times
+            designs.push(vec![(1, 300), (2, 80), (20, 120), (250, 60)]);
+            designs.push(vec![(1, 100), (30, 200), (600, 55)]);
             for (di, des) in designs.iter().enumerate() {
                 idx += 1;
                 if !ctx.mine(idx) {
